@@ -1,3 +1,148 @@
 package main
 
-func cmdSelftest(args []string) int { return 0 }
+import (
+	"fmt"
+	"os"
+	"path/filepath"
+	"sort"
+	"strings"
+
+	"golang.org/x/tools/go/ssa"
+)
+
+// cmdSelftest checks the generic engines both ways on a fixture module with
+// known verdicts: every Good* function must be fully discharged and every
+// Bad* function must produce a failed obligation; predicate true-sets, the
+// bit-provenance rendering and the linear-arithmetic core are compared with
+// expected results. It proves that rules whose expected count on the real
+// tree is zero can fire.
+func cmdSelftest(args []string) int {
+	fails := 0
+	check := func(ok bool, what string) {
+		if !ok {
+			fails++
+			fmt.Println("SELFTEST FAIL:", what)
+		}
+	}
+	// ---- linear arithmetic core
+	{
+		x, y := linSym(0), linSym(1)
+		cs := []Cons{geq(x, linConst(17)), geq(x, y.scale(16)), leq(x, y.scale(16))} // x ≥ 17, x = 16y
+		check(entails(cs, geq(x, linConst(32))), "FM with integer tightening: x=16y ∧ x≥17 ⊨ x≥32")
+		check(!entails(cs, geq(x, linConst(33))), "FM must not prove x≥33")
+		check(infeasibleFM([]Cons{geq(x, linConst(1)), leq(x, linConst(0))}), "trivial infeasibility")
+		// 4f ≤ i-1 ≤ 4f+3, i = 4q+1 ⊨ f = q
+		i, f, q := linSym(2), linSym(3), linSym(4)
+		cs2 := []Cons{leq(f.scale(4), i.addConst(-1)), geq(f.scale(4).addConst(3), i.addConst(-1)), geq(i, q.scale(4).addConst(1)), leq(i, q.scale(4).addConst(1))}
+		check(entails(cs2, geq(f, q)) && entails(cs2, leq(f, q)), "floor reasoning: f = q")
+	}
+	// ---- bit vectors
+	{
+		b := bvSrc("d1", 8)
+		lo := bvBinary("&", b, bvConst(0x0f, 8), 8)
+		check(lo.String() == "d1[3:0]", "mask renders as d1[3:0], got "+lo.String())
+		hi := b.shr(4, false)
+		check(hi.String() == "d1[7:4]", "shift renders as d1[7:4], got "+hi.String())
+		se := b.resize(16, true)
+		check(se.render() == "sext8(d1[7:0])", "sign extension renders as sext8, got "+se.render())
+	}
+	// ---- fixture module
+	exe, _ := os.Executable()
+	dir := filepath.Join(filepath.Dir(filepath.Dir(exe)), "checker", "testdata", "fx")
+	if len(args) > 0 {
+		dir = args[0]
+	}
+	saveMod, saveMin := modPath, minModulePackages
+	modPath, minModulePackages = "fixtures", 1
+	defer func() { modPath, minModulePackages = saveMod, saveMin }()
+	c, err := loadRepo(dir, "quick", "amd64")
+	if err != nil {
+		fmt.Println("SELFTEST FAIL: cannot load fixtures:", err)
+		return 1
+	}
+	p := c.Pkg("")
+	if p == nil {
+		fmt.Println("SELFTEST FAIL: fixture package missing")
+		return 1
+	}
+	var names []string
+	for n, m := range p.Members {
+		if _, ok := m.(*ssa.Function); ok {
+			names = append(names, n)
+		}
+	}
+	sort.Strings(names)
+	nGood, nBad := 0, 0
+	for _, n := range names {
+		fn := p.Func(n)
+		if !(strings.HasPrefix(n, "Good") || strings.HasPrefix(n, "Bad")) || strings.Contains(n, "Table") {
+			continue
+		}
+		e := newLenflow(c, 4)
+		e.runEntry(fn, nil)
+		failed, total := 0, 0
+		for _, o := range e.obls {
+			total++
+			if o.Failed > 0 || o.Unknown > 0 {
+				failed++
+			}
+		}
+		unknownLoops := 0
+		for _, v := range e.loopsSeen {
+			if !strings.HasPrefix(v, "ok: ") {
+				unknownLoops++
+			}
+		}
+		if strings.HasPrefix(n, "Good") {
+			nGood++
+			check(failed == 0 && total > 0 && unknownLoops == 0, fmt.Sprintf("lenflow: %s must be fully discharged (%d/%d failed, %d loops without ranking)", n, failed, total, unknownLoops))
+		} else {
+			nBad++
+			check(failed > 0, fmt.Sprintf("lenflow: %s must produce a failed obligation (%d obligations, none failed)", n, total))
+		}
+	}
+	check(nGood >= 5 && nBad >= 6, fmt.Sprintf("fixture functions found: %d good, %d bad", nGood, nBad))
+	// predicates
+	for _, pw := range []struct{ n, want string }{{"IsSmall", "{0x0-0x5F}"}, {"IsMiddle", "{0x60-0x7F}"}, {"IsEither", "{0xC0,0xC3}"}} {
+		set, err := predicateTrueSet(p.Func(pw.n), 0, 255)
+		check(err == nil && rangesString(set) == pw.want, fmt.Sprintf("true-set of %s = %s, want %s (%v)", pw.n, rangesString(set), pw.want, err))
+	}
+	// bit provenance of the fixture decoder
+	if dec := c.Method("", "Rec", "Decode"); dec == nil {
+		check(false, "fixture decoder missing")
+	} else {
+		evs, why := extractEvents(c, dec, nil)
+		got := mergedLayout(evs, "field")
+		want := map[string]string{"Flag": "<unset> | d0[7]", "Low": "<unset> | d0[3:0]", "High": "<unset> | d1[7:4]", "Wide": "<unset> | {d3[7:0],d2[7:0]}", "Sign": "<unset> | sext8(d1[7:0])"}
+		for k, w := range want {
+			check(strings.Join(got[k], " | ") == w, fmt.Sprintf("bitprov: %s = %q, want %q %s", k, strings.Join(got[k], " | "), w, why))
+		}
+	}
+	// global taint: the fixture's writer of package state must be seen, the reader must not
+	{
+		g := newGlobalTaint(c)
+		g.solve()
+		sawWrite, sawReadAsWrite := false, false
+		for _, fn := range g.fns {
+			allInstrs(fn, false, func(in ssa.Instruction) {
+				if mu, ok := in.(*ssa.MapUpdate); ok {
+					if _, t := g.tainted[mu.Map]; t {
+						if fn.Name() == "BadWritesTable" {
+							sawWrite = true
+						}
+						if fn.Name() == "GoodReadsTable" {
+							sawReadAsWrite = true
+						}
+					}
+				}
+			})
+		}
+		check(sawWrite && !sawReadAsWrite, "global taint: write to a package-level map seen in BadWritesTable only")
+	}
+	if fails > 0 {
+		fmt.Printf("selftest: %d failure(s)\n", fails)
+		return 1
+	}
+	fmt.Println("selftest: ok (linear core, bit vectors, lenflow good/bad fixtures, predicates, bit provenance, global taint)")
+	return 0
+}
